@@ -29,17 +29,19 @@ func (t *c14Table) SetKey(k, v string) error { t.m[k] = v; return nil }
 // Hash contract (A-C14-hash): deterministic, injective, verify iff equal;
 // more than 72 bytes are refused at hashing.
 //
-//verif:stub github.com/foxcpp/maddy/internal/auth/pass_table.computeBcrypt
-func stubComputeBcrypt(opts HashOpts, pass string) (string, error) {
-	if len(pass) > 72 {
-		return "", errors.New("bcrypt: password length exceeds 72 bytes")
+// The bcrypt primitive itself (the wrappers computeBcrypt / verifyBcrypt run for real).
+//
+//verif:stub golang.org/x/crypto/bcrypt.GenerateFromPassword
+func stubBcryptGenerate(password []byte, cost int) ([]byte, error) {
+	if len(password) > 72 {
+		return nil, errors.New("bcrypt: password length exceeds 72 bytes")
 	}
-	return "H(" + pass + ")", nil
+	return []byte("H(" + string(password) + ")"), nil
 }
 
-//verif:stub github.com/foxcpp/maddy/internal/auth/pass_table.verifyBcrypt
-func stubVerifyBcrypt(pass, hashSalt string) error {
-	if hashSalt == "H("+pass+")" {
+//verif:stub golang.org/x/crypto/bcrypt.CompareHashAndPassword
+func stubBcryptCompare(hashed, password []byte) error {
+	if string(hashed) == "H("+string(password)+")" {
 		return nil
 	}
 	return errors.New("bcrypt: hashedPassword is not the hash of the given password")
